@@ -99,6 +99,9 @@ def make_doc(r, tier, names=None, strings=None, falsy_bias=0.25):
 def examine_find(case, registry=None, env=None):
     """Differential: lib.find(text, doc) vs reference nodelist (locations + identity)."""
     q, ast, doc = case["q"], case["ast"], case["doc"]
+    if case.get("exotic"):
+        # the same data built from dict/list subclasses (OrderedDict, plain dict and list subclasses)
+        doc = V.exotic(doc, case["exotic"])
     expected = ev.find(ast, doc, registry)
     status, got = lib.find(q, doc, env)
     if status == "err":
